@@ -372,7 +372,94 @@ func runAnd(tc *tcase) record {
 	b := build(&tc.B, tc.HB)
 	ra, rb := observe(&a), observe(&b) // the operands as the real structs hold them
 	a.And(&b)
-	return record{Kind: "and", A: &ra, B: &rb, OK: true, R: observe(&a), HA: tc.HA, HB: tc.HB}
+	res := observe(&a)
+	derivations(tc, &ra, &rb)
+	return record{Kind: "and", A: &ra, B: &rb, OK: true, R: res, HA: tc.HA, HB: tc.HB}
+}
+
+// what And computes must be a value of its own: the operand is left as it was, and a result stays what it is when
+// other criteria are derived from the same operands afterwards (c1 = {} AND a AND b; c2 = {} AND a AND y: c1 and a
+// are what they were)
+type aliasT struct{ sig, detail string }
+
+var (
+	aliasMu   sync.Mutex
+	aliasSeen []aliasT
+	aliasN    int
+)
+
+func same(x, y *crit) bool {
+	bx, _ := json.Marshal(x)
+	by, _ := json.Marshal(y)
+	return string(bx) == string(by)
+}
+
+// spare re-allocates every list with room to grow (what append does to a list that was built piece by piece)
+func spare(c *imap.SearchCriteria) {
+	c.SeqNum = append(make([]imap.SeqSet, 0, len(c.SeqNum)+4), c.SeqNum...)
+	c.UID = append(make([]imap.UIDSet, 0, len(c.UID)+4), c.UID...)
+	c.Header = append(make([]imap.SearchCriteriaHeaderField, 0, len(c.Header)+4), c.Header...)
+	c.Body = append(make([]string, 0, len(c.Body)+4), c.Body...)
+	c.Text = append(make([]string, 0, len(c.Text)+4), c.Text...)
+	c.Flag = append(make([]imap.Flag, 0, len(c.Flag)+4), c.Flag...)
+	c.NotFlag = append(make([]imap.Flag, 0, len(c.NotFlag)+4), c.NotFlag...)
+	c.Not = append(make([]imap.SearchCriteria, 0, len(c.Not)+4), c.Not...)
+	c.Or = append(make([][2]imap.SearchCriteria, 0, len(c.Or)+4), c.Or...)
+}
+
+func derivations(tc *tcase, ra, rb *crit) {
+	note := func(sig, detail string) {
+		aliasMu.Lock()
+		aliasN++
+		if len(aliasSeen) < 40 {
+			aliasSeen = append(aliasSeen, aliasT{sig, detail})
+		}
+		aliasMu.Unlock()
+	}
+	a := build(&tc.A, tc.HA)
+	b := build(&tc.B, tc.HB)
+	spare(&a)
+	spare(&b)
+	// a marker criteria that touches every list
+	y := imap.SearchCriteria{Flag: []imap.Flag{"zzflag"}, NotFlag: []imap.Flag{"zznot"}, Body: []string{"zzbody"}, Text: []string{"zztext"},
+		Header: []imap.SearchCriteriaHeaderField{{Key: "X-Zz", Value: "zz"}}}
+	var set imap.SeqSet
+	set.AddNum(4242)
+	y.SeqNum = []imap.SeqSet{set}
+	var us imap.UIDSet
+	us.AddNum(4243)
+	y.UID = []imap.UIDSet{us}
+	y.Not = []imap.SearchCriteria{{Body: []string{"zznotbody"}}}
+	y.Or = [][2]imap.SearchCriteria{{{Body: []string{"zzor1"}}, {Body: []string{"zzor2"}}}}
+	var c1 imap.SearchCriteria
+	c1.And(&a)
+	c1.And(&b)
+	r1 := observe(&c1)
+	if oa, ob := observe(&a), observe(&b); !same(&oa, ra) || !same(&ob, rb) {
+		note("and-modifies-operand", fmt.Sprintf("after c1 = {} AND a AND b the operands read a=%s b=%s, they were a=%s b=%s", tc.show(&oa), tc.show(&ob), tc.show(ra), tc.show(rb)))
+		return
+	}
+	var c2 imap.SearchCriteria
+	c2.And(&a)
+	c2.And(&y)
+	var c3 imap.SearchCriteria
+	c3.And(&b)
+	c3.And(&y)
+	if again := observe(&c1); !same(&again, &r1) {
+		note("and-result-aliased", fmt.Sprintf("c1 = {} AND a AND b read %s; after c2 = {} AND a AND y and c3 = {} AND b AND y were derived from the same operands it reads %s (a=%s b=%s)", tc.show(&r1), tc.show(&again), tc.show(ra), tc.show(rb)))
+		return
+	}
+	if oa, ob := observe(&a), observe(&b); !same(&oa, ra) || !same(&ob, rb) {
+		note("and-modifies-operand", fmt.Sprintf("after further criteria were derived from them the operands read a=%s b=%s, they were a=%s b=%s", tc.show(&oa), tc.show(&ob), tc.show(ra), tc.show(rb)))
+	}
+}
+
+func (tc *tcase) show(c *crit) string {
+	b, _ := json.Marshal(c)
+	if len(b) > 300 {
+		return string(b[:300]) + "..."
+	}
+	return string(b)
 }
 
 // ---------------------------------------------------------------- real code: SEARCH on a connection
@@ -528,6 +615,9 @@ func runAll(cases []tcase, outPath string, out *vh.Out) {
 		out.Summary(map[string]interface{}{"infra_error": infra})
 		out.Flush()
 		os.Exit(2)
+	}
+	for _, m := range aliasSeen {
+		out.Mismatch(m.sig, m.detail, nil)
 	}
 	fh, err := os.Create(outPath)
 	if err != nil {
